@@ -4,8 +4,9 @@
    Constant, no other Extract Inductive. *)
 Require Extraction.
 Require Import ExtrOcamlBasic.
-From FV Require Import Base.Serial Session.Window Link.SenderCredit.
+From FV Require Import Base.Serial Session.Window Link.SenderCredit Base.Bytes Codec.Value Codec.Enc Codec.Dec.
 Extraction Language OCaml.
 Separate Extraction
   Window.run Window.step Window.begun_for_oracle
-  SenderCredit.lstep SenderCredit.linit.
+  SenderCredit.lstep SenderCredit.linit
+  Enc.enc_bytes Dec.from_slice Value.wf.
